@@ -317,6 +317,16 @@ class Ctx:
         self.violations.append({"what": what, "replay": str(rp), "found_input": found_input, "key": key})
 
     def finish(self) -> int:
+        broken = [o["name"] for o in self.obligations if not o["ok"]]
+        if broken and not self.violations:
+            # a proof obligation / correspondence no longer checks and no concrete failing input
+            # was exhibited: the property is no longer shown to hold (brief: still a violation)
+            self.violation(
+                "proof obligation or correspondence no longer checks: " + "; ".join(broken),
+                {"broken": broken,
+                 "details": {o["name"]: o["detail"] for o in self.obligations if not o["ok"]}},
+                found_input=False,
+            )
         wall = time.time() - self.t0
         n_obl = len(self.obligations)
         n_ok = sum(1 for o in self.obligations if o["ok"])
